@@ -1062,6 +1062,7 @@ fn run_case(c: &Case, drv: &mut Driver, rep: Option<&mut Counters>) -> Outcome {
         out.fails.push(("impl_vs_spec".into(), "sheet_names".into(), format!("{names:?}"), "-".into(), format!("{want_names:?}")));
         return out;
     }
+    let mut per_name: Vec<(String, String)> = vec![];
     for (i, sh) in c.sheets.iter().enumerate() {
         // D37 guard: never let the reader (or the model) build a dense range above 2^21 cells — a fault or a
         // shrinking step can move cells far apart
@@ -1194,6 +1195,24 @@ fn run_case(c: &Case, drv: &mut Driver, rep: Option<&mut Counters>) -> Outcome {
         if got_class != model {
             let sig = if wellformed { diff_sig(c, sh, &got_class, &want) } else { format!("corr_{}", c.fault) };
             out.fails.push(("impl_vs_model".into(), sig, got.clone(), model.clone(), expect.clone()));
+        }
+        per_name.push((sh.name.clone(), got_class));
+    }
+    // `Reader::worksheets()`: every sheet whose `worksheet_range(name)` succeeds, in tab order, with that range —
+    // whatever the kinds (work / chart / dialog / macro sheet) and their order. Only when every sheet was read above
+    // (none skipped by a guard), so that no range is built here that was refused there.
+    if per_name.len() == c.sheets.len() && !per_name.iter().any(|(_, g)| g == "panic") {
+        let want: Vec<String> = per_name.iter().filter(|(_, g)| g.starts_with("ok")).map(|(n, g)| format!("{n}={g}")).collect();
+        let got: Vec<String> = match guarded(|| wb.worksheets()) {
+            Ok(v) => v.iter().map(|(n, r)| format!("{n}={}", canon_range(r))).collect(),
+            Err(p) => vec![format!("panic:{p}")],
+        };
+        if let Some(rep) = rep.as_deref_mut() {
+            rep.count("worksheets_call");
+        }
+        if got != want {
+            let clip = |v: &Vec<String>| -> String { v.iter().map(|x| if x.len() > 120 { format!("{}…", &x[..x.char_indices().map(|(i, _)| i).take_while(|i| *i <= 120).last().unwrap_or(0)]) } else { x.clone() }).collect::<Vec<_>>().join(" | ") };
+            out.fails.push(("impl_vs_spec".into(), "worksheets".into(), clip(&got), "-".into(), clip(&want)));
         }
     }
     out
@@ -1528,7 +1547,29 @@ fn gen_sheet(rng: &mut Rng, name: String, nsst: usize, nxf: usize) -> SheetCase 
                 items.push(f);
             }
             noise(rng, &mut items);
-            let tail = if rng.chance(1, 4) { { let k = rng.below(3) as usize; rng.bytes(13 + 8 * k) } } else { vec![0; 13] };
+            // BrtRowHdr behind the row number: ixfe, miyRw, three flag bytes (fGhostDirty = bit 0x40 of the second),
+            // ccolspan and the colspan array — every field varied; the cell loop reads the row number only
+            let tail = match rng.below(4) {
+                0 => {
+                    let k = rng.below(3) as usize;
+                    rng.bytes(13 + 8 * k)
+                }
+                1 | 2 => {
+                    let mut t = (rng.below(nxf as u64 + 2) as u32).to_le_bytes().to_vec(); // a real XF index (or just past the table)
+                    t.extend_from_slice(&(rng.range(0, 8192) as u16).to_le_bytes()); // miyRw
+                    t.push(rng.next() as u8 & 0x03);
+                    t.push((rng.next() as u8 & 0xBF) | if rng.chance(2, 3) { 0x40 } else { 0 });
+                    t.push(rng.next() as u8 & 0x01);
+                    let k = rng.below(3) as u32;
+                    t.extend_from_slice(&k.to_le_bytes());
+                    for j in 0..k {
+                        t.extend_from_slice(&(j * 1024).to_le_bytes());
+                        t.extend_from_slice(&(j * 1024 + rng.below(1024) as u32).to_le_bytes());
+                    }
+                    t
+                }
+                _ => vec![0; 13],
+            };
             let f = fm.frame(rng, It::Row { r, tail });
             items.push(f);
             cur = Some(r);
@@ -2061,6 +2102,16 @@ fn corpus() -> Vec<Case> {
         c.sheets[0].items.extend(tail);
         v.push(c);
     }
+    // a row header with its own XF (a date format) and fGhostDirty set: cells of the row at XF 0 stay numbers
+    v.push(base_case(vec![
+        It::Row { r: 4, tail: vec![1, 0, 0, 0, 0x2C, 1, 0, 0x40, 0, 0, 0, 0, 0] },
+        cell(0, 0, Kind::Real(44197.0f64.to_bits()), false),
+        cell(1, 0, Kind::Rk((44197 << 2) | 2), false),
+        cell(2, 1, Kind::Real(44197.5f64.to_bits()), true),
+        It::Row { r: 5, tail: vec![0, 0, 0, 0, 0x2C, 1, 0, 0x40, 0, 1, 0, 0, 0, 0, 0, 0, 0, 3, 0, 0, 0] },
+        cell(0, 1, Kind::Real(1.5f64.to_bits()), false),
+        cell(3, 0, Kind::Rk((7 << 2) | 3), false),
+    ]));
     // rows out of stream order with a real cell in the header row behind the first kept cell (HeaderRow::Row(3))
     v.push(base_case(vec![row(5), cell(2, 0, Kind::Bool(1), false), row(3), cell(2, 0, Kind::Real(7.5f64.to_bits()), false), cell(4, 0, Kind::Bool(0), false)]));
     // value and formula cells in one row, row > 0: one reader, next_cell / next_formula interleaved
